@@ -328,7 +328,6 @@ func (p *Proxy) handleCONNECT(r responder.Responder, proxyReq *http.Request) err
 	// Create a buffered reader for the client connection. This is required to
 	// use http package functions with this connection.
 	connReader := bufio.NewReader(tlsConn)
-	responder := responder.NewRawHTTPResponder(tlsConn)
 
 	slog.Debug("Entering request loop for CONNECT tunnel", "host", proxyReq.Host)
 	for {
@@ -344,7 +343,11 @@ func (p *Proxy) handleCONNECT(r responder.Responder, proxyReq *http.Request) err
 		}
 
 		req.Close = true
-		if err := p.handleHTTP(responder, req); err != nil {
+
+		// Every exchange gets its own responder: it accumulates the response headers,
+		// Content-Length and framing, none of which may leak into the next response on this tunnel.
+		exchangeResponder := responder.NewRawHTTPResponder(tlsConn)
+		if err := p.handleHTTP(exchangeResponder, req); err != nil {
 			slog.Error("Error processing HTTP request in CONNECT tunnel", "host", proxyReq.Host, "error", err)
 		}
 	}
